@@ -20,8 +20,12 @@ TClientClose == IsEvent("ClientClose") /\ Run /\ UNCHANGED svars
 TGreet == IsEvent("GreetReply") /\ Run /\ GreetReply(S(Ev.s), Ev.ver, Ev.method)
 TReply == IsEvent("Reply") /\ Run /\ Reply(S(Ev.s), Ev.code, Ev.kind)
 TUp == IsEvent("UpSent") /\ Run /\ UpSent(S(Ev.s), Ev.n)
-TTargetConn == IsEvent("TargetConn") /\ Run /\ Ev.hdr_ok /\ UNCHANGED svars
-TTargetRecv == IsEvent("TargetRecv") /\ Run /\ TargetRecv(S(Ev.s), Ev.n, Ev.off, Ev.ok)
+\* a connection / bytes the target cannot attribute to a session (s = 0): only a malformed negotiation that the proxy
+\* served anyway can cause it (what is left of the garbled request is relayed as payload); nothing is required of it
+Unattributed == Ev.s = 0 /\ \E x \in Sessions : d[x].cmd # "" /\ ~d[x].valid
+TTargetConn == IsEvent("TargetConn") /\ Run /\ (Ev.hdr_ok \/ Unattributed) /\ UNCHANGED svars
+TTargetRecv == /\ IsEvent("TargetRecv") /\ Run
+               /\ IF Ev.s = 0 THEN Unattributed /\ UNCHANGED svars ELSE TargetRecv(S(Ev.s), Ev.n, Ev.off, Ev.ok)
 TTargetEof == IsEvent("TargetEof") /\ Run /\ UNCHANGED svars
 TClientRecv == IsEvent("ClientRecv") /\ Run /\ ClientRecv(S(Ev.s), Ev.n, Ev.off, Ev.ok)
 TPeer == IsEvent("PeerConnected") /\ Run /\ (Ev.ec = "ok" \/ ~d[S(Ev.s)].valid) /\ UNCHANGED svars
